@@ -3,7 +3,7 @@ model of the networkx operations + the declarative substitution spec applied to 
 implementation output."""
 import networkx as nx
 
-from common import Atom, Case, Run, call_impl, prepare, enc_graph, sx
+from common import Atom, Case, Run, call_impl, prepare, enc_graph, sx, input_variant
 
 PROOFS = ["FGVerif.Proofs.C13", "FGVerif.Proofs.C13Any", "FGVerif.Proofs.C13Offset", "FGVerif.Proofs.C13IdsA",
           "FGVerif.Proofs.C13Ids"]
@@ -171,7 +171,21 @@ def sparse_ids(g, rng, negative=False):
     return renamed(g, mapping)
 
 
-def make_case(r, g, x, sub, anchors, multi, meta, tags, contract_cache):
+# replace_node / relabel_graph are PURE (they return a new graph): the parent may come in any form - with irrelevant
+# extra attributes, with numpy ids (and numpy map numbers / half orders), frozen, or as a sub-graph view of a larger graph
+VARIANT_KINDS = ("extra_attrs", "numpy", "frozen", "view")
+
+
+def as_variant(g, rng, kinds=VARIANT_KINDS):
+    v, form = input_variant(g, rng, kinds)
+    if sx(enc_graph(v)) != sx(enc_graph(g)):
+        raise AssertionError("input_variant changed the wire form (harness defect)")
+    return v, form
+
+
+def make_case(r, g, x, sub, anchors, multi, meta, tags, contract_cache, form_rng=None, variant_kinds=VARIANT_KINDS):
+    """`form_rng`: the implementation receives the parent in another FORM (common.input_variant, kind drawn with that
+    rng); request, oracles and tags are those of the plain parent"""
     from fgutils.parse import Parser
     n = g.number_of_nodes()
     off = next_id(g)
@@ -191,7 +205,12 @@ def make_case(r, g, x, sub, anchors, multi, meta, tags, contract_cache):
     shape = id_shape(g)
     meta = dict(meta, node=x, sub=sub, anchors=list(anchors), multi=multi, ordered=list(g.nodes) == list(range(n)),
                 contiguous=oracle_contiguous(g), next_id=off)
-    out = call_impl(impl_replace, g, x, sub, anchors, multi)
+    g_impl = g
+    if form_rng is not None:
+        g_impl, form = as_variant(g, form_rng, variant_kinds)
+        meta["variant"] = form
+        tags = tuple(tags) + ("input_form", form)
+    out = call_impl(impl_replace, g_impl, x, sub, anchors, multi)
     tags = tuple(tags) + (
         "multi" if multi else "simple",
         "sub_empty" if hn == 0 else "sub_nonempty",
@@ -201,7 +220,7 @@ def make_case(r, g, x, sub, anchors, multi, meta, tags, contract_cache):
         "n>=7" if n >= 7 else "n<7",
         shape,
         "in_domain" if in_dom else "out_of_domain")
-    ntk = (sx(req[2]), x, sub, tuple(anchors)) if in_dom and deg >= 1 else None
+    ntk = (sx(req[2]), x, sub, tuple(anchors), meta.get("variant")) if in_dom and deg >= 1 else None
     return Case(req, out, in_domain=in_dom, meta=meta, nontrivial_key=ntk, tags=tags)
 
 
@@ -256,13 +275,21 @@ def replay(path):
         return 1
     req = parse_sx(d["request_line"])
     meta = d.get("meta") or {}
+    form = meta.get("variant")
+
+    def formed(g):
+        if form and form != "variant=plain":
+            import random
+            print("re-applied the recorded input form: %s" % form)
+            return input_variant(g, random.Random(d.get("seed", 0)), (form.split("=")[1],))[0]
+        return g
     if req[1] == "replace":
         g = dec_graph(req[2])
-        out = call_impl(impl_replace, g, int(req[3]), meta["sub"], [int(a) for a in req[5]], meta["multi"])
+        out = call_impl(impl_replace, formed(g), int(req[3]), meta["sub"], [int(a) for a in req[5]], meta["multi"])
         case = Case([Atom("C13"), Atom("replace"), enc_graph(g), int(req[3]), enc_graph(dec_graph(req[4])), [int(a) for a in req[5]]], out, meta=meta)
     else:
         g = dec_graph(req[2])
-        out = call_impl(impl_relabel, g, int(req[3]))
+        out = call_impl(impl_relabel, formed(g), int(req[3]))
         case = Case([Atom("C13"), Atom("relabel"), enc_graph(g), int(req[3])], out, meta=meta)
     drv = Driver()
     o = Outcome(case, drv.ask(case.line()))
@@ -315,6 +342,9 @@ def run(tier, seed):
     for s, x, sub, anchors, multi in corpus:
         g = Parser(use_multigraph=multi).parse(s)
         cases.append(make_case(r, g, x, sub, anchors, multi, {"parent": s}, ("corpus",), cc))
+        for kind in VARIANT_KINDS:        # every corpus parent also in every other input form
+            g = Parser(use_multigraph=multi).parse(s)
+            cases.append(make_case(r, g, x, sub, anchors, multi, {"parent": s}, ("corpus",), cc, form_rng=rng, variant_kinds=(kind,)))
     # parents whose ids are not 0..n-1 (review round 1): `idx_offset = len(graph.nodes)` was an id in use there
     corpus_offset = [
         ("{g}CC", 2, 2, "N", [0], True),                  # replace_next_node(parse("{g}CC", idx_offset=2), {g: [N, O, S]})
@@ -420,17 +450,22 @@ def run(tier, seed):
             sub = "CO"
             hn = 2
         anchors = [rng.randrange(hn) for _ in range(rng.randint(1, 4))] if hn else [0]
-        cases.append(make_case(r, g, x, sub, anchors, multi, meta, tags, cc))
+        # the FORM of the input (12%): the same parent with extra attributes / numpy ids / frozen / as a view
+        cases.append(make_case(r, g, x, sub, anchors, multi, meta, tags, cc, form_rng=rng if rng.random() < 0.12 else None))
         if k % 6 == 0:
             off = rng.randint(0, 3)
             gg = shuffled(g, rng) if rng.random() < 0.5 else g
             if rng.random() < 0.5 and gg.number_of_nodes() > 1:
                 gg = gg.copy()
                 gg.remove_node(rng.choice(list(gg.nodes)))
-            out = call_impl(impl_relabel, gg, off)
             req = [Atom("C13"), Atom("relabel"), enc_graph(gg), off]
-            cases.append(Case(req, out, meta={"offset": off}, tags=("relabel", "n>=7" if gg.number_of_nodes() >= 7 else "n<7"),
-                              nontrivial_key=("relabel", sx(req[2]), off) if gg.number_of_nodes() >= 2 else None))
+            form = None
+            if rng.random() < 0.12:
+                gg, form = as_variant(gg, rng)
+            out = call_impl(impl_relabel, gg, off)
+            cases.append(Case(req, out, meta={"offset": off, "variant": form},
+                              tags=("relabel", "n>=7" if gg.number_of_nodes() >= 7 else "n<7") + (("input_form", form) if form else ()),
+                              nontrivial_key=("relabel", sx(req[2]), off, form) if gg.number_of_nodes() >= 2 else None))
     process(cases)
     dom_mismatch, inc_bad, exact_bad = stats["dom_mismatch"], stats["inc_bad"], stats["exact_bad"]
     r.notes["model_labels_in_spec_order_failures"] = exact_bad
@@ -459,7 +494,8 @@ def run(tier, seed):
         rule="parents from the real parser on random SMILES-like strings (2-16 nodes, rings, branches, parallel bonds, ITS labels; "
              "simple and multigraph), 25% results of an earlier substitution, 8% shuffled node order, and ARBITRARY ids (in domain): "
              "12% offset ids (parse with idx_offset 1..7), 8% sparse increasing ids, 6% sparse ids in shuffled node order (half negative), "
-             "7% negative sparse ids, 6% sub-graphs of parsed graphs; "
+             "7% negative sparse ids, 6% sub-graphs of parsed graphs; 12% of the parents (and every corpus parent) handed over in another FORM "
+             "(extra node/edge attributes, numpy.int64 ids, nx.freeze, sub-graph view of a larger graph; tags variant=*); "
              "replaced node = label node (70%) or any node; sub-patterns from a fixed list and random (0-7 nodes, nested labels, ITS), "
              "1-4 anchors, overflow; non-trivial = in-domain with at least one incident bond, distinct by (parent, node, sub, anchors)",
         checker_cmd="cd lean && lake build FGVerif.Proofs.C13 FGVerif.Proofs.C13Any FGVerif.Proofs.C13Ids && lake env lean FGVerif/Audit/C13.lean",
